@@ -31,7 +31,7 @@ Act(e) == CASE e.a = "enq" -> Enq(e.c) [] e.a = "reg" -> Reg(e.c) [] e.a = "wake
             [] e.a = "clear" -> Clear(e.c) [] e.a = "setstop" -> SetStop(e.c)
             [] e.a = "return" -> (Return(e.c) /\ got'[e.c] = e.v)
             [] e.a = "arrive" -> Arrive(D(e))
-            [] e.a = "check" -> (Check(D(e)) /\ (dpc'[D(e)] = "notify") = e.found)
+            [] e.a = "check" -> (Check(D(e)) /\ (dpc'[D(e)] # "dropped") = e.found)
             [] e.a = "notify" -> Notify(D(e)) [] e.a = "waitstop" -> WaitStop(D(e)) [] e.a = "pop" -> Pop(D(e))
 TraceNext == \/ /\ l < Len(Traces[tid]) /\ l' = l + 1 /\ tid' = tid /\ Act(Traces[tid][l + 1])
              \/ /\ l = Len(Traces[tid]) /\ tid < Len(Traces) /\ tid' = tid + 1 /\ l' = 0
@@ -233,15 +233,24 @@ def run(rep):
                 "300/6000 scheduled executions of the real send_message / handler_pending_answers with 2..3 callers, each validated by TLC. "
                 "distinct = executions")
     for k, dup in ((2, "TRUE"), (3, "FALSE")) if rep.tier == "quick" else ((2, "TRUE"), (3, "TRUE")):
-        cfg = f"SPECIFICATION Spec\nCONSTANTS K = {k}\n RegisterFirst = TRUE\n Duplicates = {dup}\nINVARIANT OwnAnswer\nINVARIANT NoLostWake\nPROPERTY AllReturn\n"
+        cfg = f"SPECIFICATION Spec\nCONSTANTS K = {k}\n RegisterFirst = TRUE\n Duplicates = {dup}\n PopFirst = TRUE\nINVARIANT OwnAnswer\nINVARIANT NoLostWake\nPROPERTY AllReturn\n"
         res, _ = tlc.run("Pending", cfg, workers=8, timeout=2400, deadlock=True)
         tlc.must_ok(res, f"Pending K={k}")
         rep.tlc(f"Pending K={k} dup={dup}", res)
-    cfg = "SPECIFICATION Spec\nCONSTANTS K = 2\n RegisterFirst = FALSE\n Duplicates = FALSE\nINVARIANT NoLostWake\n"
+    cfg = "SPECIFICATION Spec\nCONSTANTS K = 2\n RegisterFirst = FALSE\n Duplicates = FALSE\n PopFirst = TRUE\nINVARIANT NoLostWake\n"
     r2, _ = tlc.run("Pending", cfg, workers=4, timeout=600, deadlock=True)
     if r2.violated != "NoLostWake":
         raise tlc.TlcError("vacuity self-test: queue-then-register does not violate NoLostWake")
     rep.notes["queue_then_register_violates"] = "NoLostWake"
+    # retransmission of the same request object (spec/Resend.tla): unregister-then-wake is safe, wake-then-unregister loses the second wake-up
+    for pf, expect in (("TRUE", None), ("FALSE", "NoLostWake")):
+        r3, _ = tlc.run("Resend", f"SPECIFICATION Spec\nCONSTANT PopFirst = {pf}\nINVARIANT NoLostWake\nPROPERTY BothReturn\n", workers=2, timeout=600, deadlock=True)
+        if expect is None:
+            tlc.must_ok(r3, "Resend")
+            rep.tlc("Resend PopFirst=TRUE", r3)
+        elif r3.violated != expect:
+            raise tlc.TlcError(f"vacuity self-test: wake-then-unregister does not violate {expect} in Resend.tla (got {r3.violated})")
+    rep.notes["wake_then_unregister_violates"] = "NoLostWake (Resend.tla)"
     rng = random.Random(rep.seed * 7919 + 14)
     nruns = 300 if rep.tier == "quick" else 6000
     traces, metas = [], []
@@ -268,6 +277,15 @@ def run(rep):
         if len(rep.violations) >= 10:
             break
     rep.notes["runs"] = nruns
+    nres = 100 if rep.tier == "quick" else 2000
+    for i in range(nres):
+        seed = rng.getrandbits(30)
+        verdict, out = run_resend(seed)
+        rep.case(("resend", i))
+        if verdict:
+            rep.violation(verdict, {"kind": "resend", "seed": seed})
+            break
+    rep.notes["retransmission_runs"] = nres
     if traces:
         rep.sample({"trace_prefix": traces[0][:10]})
         validate(rep, traces, metas)
@@ -284,7 +302,7 @@ def validate(rep, traces, metas):
         try:
             tf = os.path.join(wd, "traces.json")
             json.dump([reorder(t) for t, _m in sel], open(tf, "w"))
-            cfg = (f"SPECIFICATION TraceSpec\nCONSTANTS K = {K}\n RegisterFirst = TRUE\n Duplicates = {'TRUE' if dup else 'FALSE'}\n"
+            cfg = (f"SPECIFICATION TraceSpec\nCONSTANTS K = {K}\n RegisterFirst = TRUE\n Duplicates = {'TRUE' if dup else 'FALSE'}\n PopFirst = TRUE\n"
                    "INVARIANT OwnAnswer\nINVARIANT NoLostWake\nCONSTRAINT Progress\nPOSTCONDITION Accepted\nCHECK_DEADLOCK FALSE\n")
             res, _ = tlc.run("Trace_Pending", cfg, extra_modules={"Trace_Pending": TRACE_MODULE.replace("TRACEFILE", T(tf))}, wd=wd, workers=1, timeout=1500)
             rep.tlc(f"Trace_Pending K={K} dup={dup}", res)
@@ -314,6 +332,14 @@ def replay(rep, path):
     r = json.load(open(path))["replay"]
     from engine import vsched
     vsched.install(0)
+    if r.get("kind") == "resend":
+        verdict, out = run_resend(r["seed"])
+        if verdict:
+            rep.violation(verdict, r)
+        rep.case(str(r))
+        rep.states, rep.transitions = 1, 1
+        rep.sample(r)
+        return rep.finish()
     events, results, out, dead = run_once(r["seed"], r["K"], r["dup"])
     if out != "until" or dead or any(results.get(k) != k for k in range(1, r["K"] + 1)):
         rep.violation(f"{r['K']} callers: {out} {dead}; callers returned {results}", r)
@@ -321,3 +347,63 @@ def replay(rep, path):
     rep.states, rep.transitions = 1, 1
     rep.sample(r)
     return rep.finish()
+
+
+def run_resend(seed, router_cls=c13.Router):
+    """A retransmission: one caller sends the same request object twice, one after the other; every transmission is answered
+    by the peer; both calls must return their answer.  (The second registration uses the same Hop-by-Hop key as the first.)"""
+    from engine import vsched
+    import bromelia.bromelia as bb
+    s = vsched.new_sched(seed, max_steps=40000)
+    s.line_funcs = {"handler_pending_answers", "send_message", "wait", "notify", "update_msg", "is_pending_answer",
+                    "get_pending_answer", "insert_pending_answer", "remove_pending_answer", "set_outgoing_message"}
+    s.line_budget = 3000
+    router = router_cls.__new__(router_cls)
+    c13.InProcessManager, saved_mgr = SchedManager, c13.InProcessManager
+    try:
+        router.__init__()
+    finally:
+        c13.InProcessManager = saved_mgr
+    app = router.app
+    worker = router.workers[c13.app_bytes("a1")]
+    rng = random.Random(seed)
+    req = c13.make_request("a1", "c1", 1, rng)
+    other = c13.make_request("a1", "c1", 2, rng)
+    results = []
+
+    def caller():
+        for _ in range(2):
+            ans = app.send_message(req)
+            results.append(ans is not None and not ans.header.is_request() and ans.header.hop_by_hop == req.header.hop_by_hop)
+
+    def caller2():
+        ans = app.send_message(other)
+        results.append(ans is not None and ans.header.hop_by_hop == other.header.hop_by_hop)
+
+    def dispatcher(r):
+        from bromelia.base import DiameterAnswer
+        from bromelia.avps import ResultCodeAVP
+        app.handler_pending_answers(DiameterAnswer(header=r.header, avps=[ResultCodeAVP(2001)]))
+
+    def consumer():
+        n = 0
+        while n < 3:
+            msg = worker.send_queue.get()
+            worker.send_event.clear()
+            worker.send_lock.release()
+            n += 1
+            s.spawn(f"dispatcher{n}", dispatcher, msg)
+    s.spawn("caller1", caller)
+    s.spawn("caller2", caller2)
+    s.spawn("worker_send_handler", consumer)
+    chooser = vsched.PCT(seed, depth=1 + seed % 3, horizon=250) if seed % 3 else None
+    try:
+        out = s.run(until=lambda: all(t.done for t in s.threads), chooser=chooser)
+    except vsched.Deadlock as e:
+        out = "deadlock: " + str(e)
+    except (vsched.StepLimit, vsched.StepHang) as e:
+        out = type(e).__name__ + ": " + str(e)
+    dead = [(t.name, f"{type(t.exc).__name__}: {t.exc}") for t in s.threads if t.exc is not None]
+    ok = len(results) == 3 and all(results) and not (isinstance(out, str) and out.startswith(("deadlock", "Step")))
+    s.kill_all()
+    return (None if ok else f"retransmission: {sum(1 for r in results if r)} of 3 calls returned their answer ({out}); threads ended by exception: {dead}"), out
